@@ -212,6 +212,10 @@ def simulate(L, K, lines, thrown=()):
                     nx.aid, ny.aid = x.aid, y.aid
                 slots[a[0]], slots[a[1]] = nx, ny
             touched = [a[0], a[1]]
+        elif op == "ebyteprobe":
+            v = slots.get(a[0])
+            if v is None or not (0 <= a[1] < len(v.elems)):
+                raise Invalid("byte-allocator element from a missing element")
         elif op in ("junk", "pagemode", "protect", "unprotect", "constops", "threads") or op.startswith("thrown:"):
             if op in ("constops", "threads") and (slots.get(a[0]) is None or slots.get(a[1]) is None):
                 raise Invalid("const operations on a missing vector")
@@ -657,6 +661,11 @@ def oracle_C12(L, K, lines, steps, spec):
     """elements hold exactly the spec's tuple in a block of their own allocator, vectors are
     untouched except where the operation says so; comparisons with elements are by content"""
     v = content_mismatches(L, steps, spec)
+    for i, l in enumerate(lines):
+        if l.startswith("ebyteprobe") and i < len(steps):
+            ok = [m for m in steps[i]["markers"] if m.startswith("EBYTE")]
+            if not ok or ok[0].split()[1] != "1":
+                v.append("step %d: an element over an allocator of std::byte (cntgs::ContiguousElement) is not a faithful, suitably aligned deep copy: %r" % (i, ok))
     for i, (st, sp) in enumerate(zip(steps, spec)):
         for s, oe in st.get("elems", {}).items():
             ae = sp["eslots"].get(s)
